@@ -1,0 +1,36 @@
+//go:build verif
+
+package otp
+
+import (
+	"hash"
+	"sync"
+)
+
+// Accessors for the runtime monitors in /verif. Compiled only with -tags verif;
+// they add no behaviour to the library and touch no existing line.
+
+// VerifHMACFactory returns the HMAC constructor currently installed for a.
+func VerifHMACFactory(a Algorithm) func(key []byte) hash.Hash {
+	return hmacPools[a].new
+}
+
+// VerifSetHMACFactory replaces the HMAC constructor for a (monitors wrap the
+// original to observe key/message, inject yields, or substitute the digest,
+// and restore it afterwards).
+func VerifSetHMACFactory(a Algorithm, f func(key []byte) hash.Hash) {
+	hmacPools[a].new = f
+}
+
+// VerifHMACFactories is the number of constructor slots.
+func VerifHMACFactories() int { return len(hmacPools) }
+
+// VerifBufPools exposes the two scratch-buffer pools to an adversarial pool user.
+func VerifBufPools() (rfc4226, rfc6287 *sync.Pool) {
+	return &rfc4226BufPool, &rfc6287BufPool
+}
+
+// VerifKnownSuites returns the live suite registry map (not a copy).
+func VerifKnownSuites() map[string]SuiteConfig {
+	return knownSuites
+}
